@@ -690,7 +690,8 @@ func recordRPC(args []string) error {
 			}
 			req.Queries = append(req.Queries, toPBQuery(dict, q, rng, true))
 		}
-		if i%3 == 1 && sweep <= 3*41 {
+		deepSlot := i%10 == 9 // deep nesting takes this request: the sweeps keep their next value for a later slot
+		if i%3 == 1 && sweep <= 3*41 && !deepSlot {
 			// systematic operand counts 0..40 for OR, AND and NOT(OR)
 			k := sweep / 3
 			e := &HExpr{Op: []string{"or", "and", "or"}[sweep%3]}
@@ -703,7 +704,7 @@ func recordRPC(args []string) error {
 			sweep++
 			req.Queries = []*proto.Query{toPBQuery(dict, rpcQuery{E: e}, rng, true)}
 		}
-		if i%3 == 2 && gsweep <= 100 {
+		if i%3 == 2 && gsweep <= 100 && !deepSlot {
 			// systematic group-by widths: the 2-valued column repeated 0..70 times, then the 3-valued one 30..59 times
 			col, width := 2, gsweep
 			if gsweep > 70 {
@@ -716,17 +717,18 @@ func recordRPC(args []string) error {
 			}
 			req.Queries = []*proto.Query{toPBQuery(dict, q, rng, true)}
 		}
-		if i < 2*len(strangeColumns) {
-			// comparisons against / grouping by columns the index does not have, under names of every shape
-			name := strangeColumns[i/2]
+		if j := i / 3; i%3 == 0 && j < 2*len(strangeColumns) && !deepSlot {
+			// comparisons against / grouping by columns the index does not have, under names of every shape (the slots the
+			// operand-count and group-by-width sweeps leave free)
+			name := strangeColumns[j/2]
 			eq := &proto.Query_Expression{Value: &proto.Query_Expression_Eq{Eq: &proto.Query_Expression_Equal{Column: name, Value: "x"}}}
-			if i%2 == 0 {
+			if j%2 == 0 {
 				req.Queries = []*proto.Query{{Expr: eq}}
 			} else {
 				req.Queries = []*proto.Query{{Expr: toPB(dict, &HExpr{Op: "eq", Col: 1, Val: 1}, rng, true, false), GroupBy: []string{name}}}
 			}
 		}
-		if i%10 == 9 && i >= 2*len(strangeColumns) { // deep nesting
+		if deepSlot { // deep nesting
 			e := &proto.Query_Expression{Value: &proto.Query_Expression_Eq{Eq: &proto.Query_Expression_Equal{Column: dict.Col(1), Value: dict.Val(1)}}}
 			for d := 0; d < []int{50, 500, 5000}[rng.Intn(3)]; d++ {
 				e = &proto.Query_Expression{Value: &proto.Query_Expression_Not_{Not: &proto.Query_Expression_Not{Expr: e}}}
